@@ -5,7 +5,7 @@ from pv import common, gen, detsched
 
 RULE = ("(a) harness-defined probe algorithm on the real SynchronousComputationMixin+DcopComputation over random "
         "graphs (1-7 nodes, any degree incl. 0): each round every node sends a uniquely numbered message to a "
-        "random subset of neighbours, through the returned list or post_msg; (b) the real maxsum (start_messages leafs / leafs_vars / all) and dsatuto "
+        "random subset of neighbours, through the returned list or post_msg; (b) 15% of the computations are paused, started while paused and resumed; (c) the real maxsum (start_messages leafs / leafs_vars / all) and dsatuto "
         "computations on generated DCOPs; random FIFO schedules with biases; oracle over the send log: round ids "
         "0,1,2.. without gap, on_new_cycle(messages, i) gets exactly the algorithm messages tagged i (same objects), "
         "every other neighbour sent exactly one sync tagged i; no ComputationException; non-trivial = >= 3 "
@@ -175,6 +175,8 @@ def run_one(spec, sched_seed, bias=None, choices=None, rounds=8):
     mon = RoundMonitor(pool, comps)
     for c in comps:
         pool.add(c)
+        if rng.random() < 0.15:
+            pool.paused_start.add(c.name)  # paused, started, resumed
     withnb = [c for c in comps if list(c.neighbors)]
     nlinks = sum(len(list(c.neighbors)) for c in comps)
 
